@@ -91,6 +91,11 @@ type Out struct {
 }
 
 var runInProgress atomic.Bool
+var shrinking atomic.Bool
+
+// a scheduler step takes microseconds to milliseconds; 8 s without one (real time) means that the bubble
+// cannot come to rest: a goroutine spins, or waits for a sync.Mutex that nobody will release
+const watchdogLimit = 8 * time.Second
 
 func startWatchdog(dump string) {
 	go func() {
@@ -99,18 +104,24 @@ func startWatchdog(dump string) {
 		for {
 			time.Sleep(500 * time.Millisecond)
 			cur := stepCounter.Load()
-			if cur != last || !runInProgress.Load() {
+			if cur != last || !(runInProgress.Load() || shrinking.Load()) {
 				last = cur
 				lastChange = time.Now()
 				continue
 			}
-			if time.Since(lastChange) > 20*time.Second {
+			if time.Since(lastChange) > watchdogLimit {
+				if shrinking.Load() {
+					// a shrink candidate hangs (e.g. on a leaked lock): the violation it is shrinking has
+					// already been written out, give up minimising
+					fmt.Fprintf(os.Stderr, "WATCHDOG: hang while shrinking\n")
+					os.Exit(4)
+				}
 				buf := make([]byte, 1<<22)
 				n := runtime.Stack(buf, true)
 				if dump != "" {
 					os.WriteFile(dump, buf[:n], 0o644)
 				}
-				fmt.Fprintf(os.Stderr, "WATCHDOG: no scheduler step for 20s\n%s\n", buf[:n])
+				fmt.Fprintf(os.Stderr, "WATCHDOG: no scheduler step for %v\n%s\n", watchdogLimit, buf[:n])
 				os.Exit(3)
 			}
 		}
@@ -275,9 +286,16 @@ func workerBatch(t *testing.T, job *Job) {
 			if seenViol[vk] <= 2 { // keep at most two replay files per (oracle,key) per worker
 				writeJSON(path, rf)
 				if !job.NoShrink && seenViol[vk] == 1 {
+					// make what is known so far durable: a shrink candidate may hang the process
+					out.Violations = append(out.Violations, ViolOut{Oracle: rf.Oracle, Key: rf.Key, Msg: rf.Msg, Index: i, Seed: seed, Replay: path})
+					out.WallS = time.Since(t0).Seconds()
+					writeJSON(job.Out, out)
+					out.Violations = out.Violations[:len(out.Violations)-1]
+					shrinking.Store(true)
 					min, n := Shrink(t, job.Property, job.Profile, seed, sweepPos, res.Tape, sc, res.Viol.Oracle,
 						400, time.Duration(job.ShrinkS)*time.Second)
 					r2 := ExecuteSweep(t, job.Property, job.Profile, seed, sweepPos, ReplayTape(min), sc)
+					shrinking.Store(false)
 					if r2.Viol != nil && r2.Viol.Oracle == res.Viol.Oracle {
 						rf.Tape, rf.Minimised, rf.ShrinkRun = r2.Tape, true, n
 						rf.Key, rf.Msg, rf.LogHash, rf.Trace = r2.Viol.Key, r2.Viol.Msg, r2.LogHash, r2.Trace
